@@ -591,6 +591,22 @@ def check(ctx):
     ctx.count("R10:device members evaluated with out-of-list states", m10_)
     ctx.floor("R10", "facades inspected with out-of-list device states", n10_, 10)
     ctx.floor("R10", "device members evaluated with out-of-list states", m10_, 500)
+    ctx.rule("R12", "device members are total on the wiring that builds every device: the same facades, built with output number n reading the n-th user-device label of its own list (pumps at both speeds, blower, WATERFALL, light - the shipped snapshots and the mixed valuation wire only some of them), every Enum item reading a label of its list: every read-only member of every device built (`modes` included: the waterfall is a pump whose demand is labelled OFF|ON, not OFF|LO|HI) evaluates without raising")
+    n12_, m12_, kinds12_ = 0, 0, set()
+    for (plat_, cs_, ls_, fcls_), (r_, extra_) in sorted(_ools(repo, T, valuation="devices", unknown=False).items()):
+        if r_ is not None or extra_ is None:
+            continue      # a pair whose facade cannot be built is R1's finding
+        bad_, nm_ = extra_
+        n12_ += 1
+        m12_ += nm_
+        ctx.ob("R12", f"{fcls_}::{plat_}::every-device-wired-read", not bad_,
+               f"{fcls_} built on ({cs_}, {ls_}) with every offered user device wired: {len(bad_)} member read(s) fail, e.g. {bad_[:3]} - a read-only member of a device the tables can produce raises into whoever polls it",
+               repo.method(fcls_, "all_automation_devices").loc,
+               sample={"rule": "R12", "facade": fcls_, "platform": plat_, "members_evaluated": nm_} if plat_.startswith("inyt") else None)
+    ctx.count("R12:facades inspected with every device wired", n12_)
+    ctx.count("R12:device members evaluated", m12_)
+    ctx.floor("R12", "facades inspected with every device wired", n12_, 10)
+    ctx.floor("R12", "device members evaluated with every device wired", m12_, 1000)
     ctx.rule("R11", "temperatures are numbers for any block contents: unit item and temperature item built by their constructors on real bytes - for words across the whole 16-bit range (0 and 65535 included) and both units the item presents a number (raw/18 or (raw+320)/10): a sentinel such as None for an all-ones word breaks every rendering and comparison the heater makes (C14.R8 borrowed)")
     from .c14 import temperature_on_real_bytes as _torb
     _torb(ctx.borrowed("R11", "C14", key_contains="::presents::"), repo, "R8")
